@@ -351,3 +351,34 @@ Proof. intro Ha. unfold affine. destruct (Qcleb y x) eqn:E.
     apply Qcleb_iff in E'. assert (y <= x)%Qc by (qc2q; nra). apply Qcleb_iff in H. congruence. Qed.
 Lemma Qcltb_alt x y : Qcltb x y = negb (Qcleb y x).
 Proof. reflexivity. Qed.
+
+(** * np.max *)
+Lemma max1_fold_ge l : forall m, (m <= fold_left (fun m y => if Qcleb m y then y else m) l m)%Qc.
+Proof. induction l as [|y l IH]; intro m; cbn; [apply Qcle_refl|]. destruct (Qcleb m y) eqn:E.
+  - apply Qcleb_iff in E. eapply Qcle_trans; [exact E|apply IH]. - apply IH. Qed.
+Lemma max1_nonneg l : (forall x, In x l -> (Q2Qc 0 <= x)%Qc) -> (Q2Qc 0 <= max1 l)%Qc.
+Proof. destruct l as [|x l]; intro H; cbn; [apply Qcle_refl|]. eapply Qcle_trans; [apply H; now left|apply max1_fold_ge]. Qed.
+Lemma max1_fold_map f l : increasing f -> forall m,
+  fold_left (fun m y => if Qcleb m y then y else m) (map f l) (f m) = f (fold_left (fun m y => if Qcleb m y then y else m) l m).
+Proof. intro Hf. induction l as [|y l IH]; intro m; cbn; [reflexivity|]. rewrite Hf. destruct (Qcleb m y); apply IH. Qed.
+Lemma max1_scale c l : (Q2Qc 0 < c)%Qc -> max1 (map (scale c) l) = scale c (max1 l).
+Proof. intro Hc. destruct l as [|x l]; cbn [max1 map]; [symmetry; apply scale_0|]. apply max1_fold_map. now apply scale_increasing. Qed.
+
+(** np.std without a square-root function: any non-negative numbers whose squares are the two variances *)
+Lemma sq_inj_nonneg x y : (Q2Qc 0 <= x)%Qc -> (Q2Qc 0 <= y)%Qc -> (x * x = y * y)%Qc -> x = y.
+Proof. intros Hx Hy E. assert (F : ((x - y) * (x + y) = Q2Qc 0)%Qc) by (transitivity (x * x - y * y)%Qc; [ring|rewrite E; ring]).
+  apply Qcmult_integral in F. destruct F as [F|F].
+  - transitivity (x - y + y)%Qc; [ring|rewrite F; ring].
+  - assert (x = Q2Qc 0 /\ y = Q2Qc 0) as [-> ->]; [|reflexivity].
+    assert (Hxy : (x <= - y)%Qc) by (apply Qcle_minus_iff; replace (- y + - x)%Qc with (- (x + y))%Qc by ring; rewrite F; apply Qcle_refl).
+    assert (Hny : (- y <= Q2Qc 0)%Qc) by (qc2q; lra).
+    assert (x = Q2Qc 0) by (apply Qcle_antisym; [eapply Qcle_trans; eassumption|exact Hx]).
+    split; [assumption|]. subst x. apply Qcle_antisym; [|exact Hy]. qc2q. lra. Qed.
+
+Theorem std_affine a b l s s' : l <> nil -> (Q2Qc 0 <= s)%Qc -> (Q2Qc 0 <= s')%Qc ->
+  (s * s = var1 l)%Qc -> (s' * s' = var1 (map (affine a b) l))%Qc -> s' = scale (Qcabs a) s.
+Proof. intros Hl Hs Hs' E E'. apply sq_inj_nonneg; [exact Hs'| |].
+  - unfold scale. pose proof (Qcabs_nonneg a). qc2q. nra.
+  - rewrite E', var1_affine by exact Hl. rewrite <- E. unfold scale.
+    replace (Qcabs a * s * (Qcabs a * s))%Qc with (Qcabs a * Qcabs a * (s * s))%Qc by ring. f_equal.
+    rewrite <- Qcabs_Qcmult. symmetry. apply Qcabs_pos. qc2q. nra. Qed.
